@@ -59,9 +59,11 @@ pub enum Src {
     SBigIter,
     /// the range 1..usize::MAX (only with `endless` cases)
     PRangeMax,
+    /// the range 1..2^spare+10 (only in explicit closure-free count items)
+    PRangeBig,
 }
 
-pub const ALL_SRC: [(Src, &str); 41] = [
+pub const ALL_SRC: [(Src, &str); 42] = [
     (Src::SVec, "svec"),
     (Src::SSlice, "sslice"),
     (Src::SIter, "siter"),
@@ -103,6 +105,7 @@ pub const ALL_SRC: [(Src, &str); 41] = [
     (Src::SBigVec, "sbigvec"),
     (Src::SBigIter, "sbigiter"),
     (Src::PRangeMax, "prangemax"),
+    (Src::PRangeBig, "prangebig"),
 ];
 
 #[derive(Clone, Copy, Debug, PartialEq, Eq)]
@@ -138,7 +141,7 @@ impl Src {
         match self {
             Src::SVec | Src::SIter | Src::SBigVec | Src::SBigIter | Src::PVec | Src::PIter | Src::PDeque | Src::PList | Src::PBTree | Src::PHeap | Src::PHash => ItemKind::Owned,
             Src::PClonedAd | Src::PClonedIt | Src::PConVec | Src::PConVecPre | Src::PConIterPre | Src::PConIterParPre | Src::PConIter | Src::PConIterPar | Src::PBTreeMap | Src::PHashMap => ItemKind::Owned,
-            Src::SRange | Src::PRange | Src::PRangeMax | Src::PCopiedAd | Src::PConRange | Src::PConRangePre => ItemKind::Usize,
+            Src::SRange | Src::PRange | Src::PRangeMax | Src::PRangeBig | Src::PCopiedAd | Src::PConRange | Src::PConRangePre => ItemKind::Usize,
             _ => ItemKind::Ref,
         }
     }
@@ -198,6 +201,9 @@ pub struct Case {
     /// the computation is built (and run) inside a closure of another parallel computation, i.e. on one of
     /// that computation's worker threads
     pub nested: bool,
+    /// the virtual clock the library sees (vatomic::time): 0 = every reading returns the same instant (closures
+    /// take no time), 1 = every reading is one second after the previous one
+    pub clk: u8,
 }
 
 impl Case {
@@ -228,6 +234,7 @@ impl Case {
             quiet: false,
             exp_mode: 0,
             nested: false,
+            clk: 0,
         }
     }
 
@@ -268,7 +275,7 @@ impl Case {
         };
         let j = |v: Vec<String>| v.join(",");
         format!(
-            "src={};in={};k={};e={};ch={};t={};rk={};pre={};sp={};nt={};cs={};cf={};fm={};ex={};pm={:x};fault={};cp={};spt={};pp={},{};cpl={};fp={};q={};xm={};ne={}",
+            "src={};in={};k={};e={};ch={};t={};rk={};pre={};sp={};nt={};cs={};cf={};fm={};ex={};pm={:x};fault={};cp={};spt={};pp={},{};cpl={};fp={};q={};xm={};ne={};clk={}",
             self.src.name(),
             if inp.is_empty() { "-".to_string() } else { inp },
             self.known as u8,
@@ -296,7 +303,8 @@ impl Case {
             self.fault_payload,
             self.quiet as u8,
             self.exp_mode,
-            self.nested as u8
+            self.nested as u8,
+            self.clk
         )
     }
 
@@ -371,6 +379,7 @@ impl Case {
                 "q" => c.quiet = v == "1",
                 "xm" => c.exp_mode = v.parse().unwrap(),
                 "ne" => c.nested = v == "1",
+                "clk" => c.clk = v.parse().unwrap(),
                 _ => panic!("MACHINERY: unknown case field {}", k),
             }
         }
@@ -431,6 +440,7 @@ pub fn install_params(case: &Case) {
     cl::CLOSURE_POINTS_LIMIT.store(case.cp_limit as u32, SeqCst);
     cl::QUIET.store(case.quiet, SeqCst);
     cl::EXP_MODE.store(case.exp_mode as u32, SeqCst);
+    vatomic::time::reset(if case.clk == 0 { 0 } else { 1_000_000_000 });
     cl::FAULT_PAYLOAD.store(case.fault_payload as u32, SeqCst);
     for i in 0..2 {
         let id = if case.pred_pos[i] == u32::MAX { u64::MAX } else { case.id_at_pred(case.pred_pos[i]) };
